@@ -674,3 +674,5 @@ def _replay(case):
     return (f'{case["kind"]}: chunked body {raw!r} ({case["what"]}; {"Content-Type " + case["ctype"] + "; " if case.get("ctype") else ""}Content-Length header {"absent" if cl_for(raw, B) is None else cl_for(raw, B)}) with max_memfile_size={B}, reads '
             f'{[r for r, _ in obs["calls"]]} answered with {[k for _, k in obs["calls"]]} bytes: {v[1]} '
             f'(payload {case["payload"]!r})')
+
+MANIFEST['text'] += ' The same requests also carry a Content-Length header (own shards); sizes spelled with 17 digits, bodies of thousands of chunks, chunked multipart forms with all their truncations, and chunked forms / JSON read through the form accessors (whole value or client error) are layers of their own.'
